@@ -100,6 +100,25 @@ def run_tlc_mc(module, cfg_text, workers=None, timeout=3600, extra=(), heap=None
         shutil.rmtree(d, ignore_errors=True)
 
 
+def run_apalache(module, inv, length=0, timeout=600):
+    """symbolic check (Apalache, unbounded integers); returns 'ok' | 'violated'"""
+    d = _tlc_dir()
+    try:
+        cmd = ["apalache-mc", "check", "--init=Init", "--next=Next", "--inv=" + inv, "--length=%d" % length,
+               "--out-dir=" + os.path.join(d, "apa"), module + ".tla"]
+        try:
+            p = subprocess.run(cmd, cwd=d, stdout=subprocess.PIPE, stderr=subprocess.STDOUT, text=True, timeout=timeout)
+        except subprocess.TimeoutExpired:
+            raise HarnessError("Apalache timed out on %s" % module)
+        if "The outcome is: NoError" in p.stdout:
+            return "ok"
+        if "The outcome is: Error" in p.stdout and "violated" in p.stdout:
+            return "violated"
+        raise HarnessError("Apalache failed on %s:\n%s" % (module, p.stdout[-3000:]))
+    finally:
+        shutil.rmtree(d, ignore_errors=True)
+
+
 def run_tlc_simulate(module, cfg_text, num, depth, seed, timeout=600):
     """random behaviours of the specification; returns list of behaviours, each a list of
     state dicts {var: text}"""
@@ -146,6 +165,11 @@ def run_tlc_trace(module, constants, trace_file, timeout=3600, invariants=("Fini
             subprocess.run(["pkill", "-f", "tlc2.TL[C]"])
             raise HarnessError("TLC trace validation timed out")
         if not os.path.exists(resf):
+            try:
+                open(os.path.join(VERIF, "scratch_tlc_trace_failure.out"), "w").write(p.stdout)
+                shutil.copy(trace_file, os.path.join(VERIF, "scratch_tlc_trace_failure.ndjson"))
+            except Exception:
+                pass
             raise HarnessError("trace validation did not finish (specification error?):\n" + p.stdout[-4000:])
         if "Error:" in p.stdout:
             raise HarnessError("trace validation reported a specification-level error:\n" + p.stdout[-4000:])
